@@ -1106,7 +1106,8 @@ Proof.
                = Some (EIn sid m2)).
   { rewrite nth_error_app2 by lia. replace (List.length a + 1 + List.length b - List.length a)%nat with (S (List.length b)) by lia.
     cbn [nth_error]. apply nth_error_mid. }
-  destruct (trace_ok_no_share _ _ _ _ _ _ H ltac:(lia) Hi Hj) as (k & Hk & Hn).
+  assert (Hlt : (List.length a < List.length a + 1 + List.length b)%nat) by lia.
+  destruct (trace_ok_no_share _ _ _ _ _ _ H Hlt Hi Hj) as (k & Hk & Hn).
   rewrite nth_error_app2 in Hn by lia.
   destruct (k - List.length a)%nat as [|k'] eqn:E; [lia|]. cbn [nth_error] in Hn.
   rewrite nth_error_app1 in Hn by lia. eapply nth_error_In; eassumption.
@@ -1126,7 +1127,8 @@ Lemma trace_ok_delivery_split evs m m' : c02_trace_ok evs = true -> In (EDone m 
 Proof.
   intros H Hin. apply In_nth_error in Hin as [k Hk].
   destruct (trace_ok_delivery _ _ _ _ H Hk) as (Hm & i & j & sid & Hij & Hi & Hj).
-  split; [assumption|]. destruct (nth_error_split_two _ _ _ _ _ ltac:(lia) Hi Hj) as (a & b & c & E). eauto.
+  split; [assumption|]. assert (Hlt : (i < j)%nat) by lia.
+  destruct (nth_error_split_two _ _ _ _ _ Hlt Hi Hj) as (a & b & c & E). eauto.
 Qed.
 
 (* The real history [tr] is not known: the peer's events are, in their order; the callers' events
@@ -1146,10 +1148,233 @@ Proof.
     pose proof (trace_ok_no_share_split _ _ _ _ _ _ _ Hok eq_refl) as Hin.
     assert (Hin' : In (EOut sid m1) (filter is_mock b')) by (apply filter_In; split; [assumption|reflexivity]).
     rewrite Hb in Hin'. apply filter_In in Hin'. tauto.
-  - intros m m' Hin. apply (Hd _ eq_refl) in Hin.
+  - intros m m' Hin. apply (Hd (EDone m (ORows m')) eq_refl) in Hin.
     destruct (trace_ok_delivery_split _ _ _ Hok Hin) as (Hm & a & b & c & sid & ->). split; [assumption|].
     rewrite filter_app in Hf. cbn [filter is_mock] in Hf. rewrite filter_app in Hf. cbn [filter is_mock] in Hf.
     symmetry in Hf.
     destruct (filter_split_lift _ _ _ _ _ Hf) as (a' & r' & -> & Ha & Hr).
     destruct (filter_split_lift _ _ _ _ _ Hr) as (b' & c' & -> & Hb & Hc). eauto.
+Qed.
+
+(* ================================================================ the bracket of old_orphans_count over a whole run *)
+
+Definition OtWf (o : otrack) : Prop :=
+  forall t s, In (t, s) (ot_by o) -> aget s (ot_orphans o) = Some t.
+Definition orph_le (e1 e2 : N * N) : Prop := fst e1 = fst e2 /\ snd e2 <= snd e1.
+Definition by_le (e1 e2 : N * N) : Prop := snd e2 = snd e1 /\ fst e2 <= fst e1.
+Definition OtRel (o1 o2 : otrack) : Prop :=
+  Forall2 orph_le (ot_orphans o1) (ot_orphans o2) /\ Forall2 by_le (ot_by o1) (ot_by o2).
+
+Lemma orph_le_aget l1 l2 s : Forall2 orph_le l1 l2 ->
+  match aget s l1, aget s l2 with
+  | Some t1, Some t2 => t2 <= t1
+  | None, None => True
+  | _, _ => False
+  end.
+Proof.
+  induction 1 as [|[k1 v1] [k2 v2] r1 r2 [Hk Hv] _ IH]; cbn [aget]; [exact I|].
+  cbn [fst snd] in *. subst k2. destruct (k1 =? s); [exact Hv|exact IH].
+Qed.
+
+Lemma orph_le_arem l1 l2 s : Forall2 orph_le l1 l2 -> Forall2 orph_le (arem s l1) (arem s l2).
+Proof.
+  induction 1 as [|[k1 v1] [k2 v2] r1 r2 [Hk Hv] _ IH]; cbn [arem]; [constructor|].
+  cbn [fst snd] in *. subst k2. destruct (k1 =? s); [exact IH|]. constructor; [split; [reflexivity|exact Hv]|exact IH].
+Qed.
+
+Lemma existsb_pair_false t s l : ~ In (t, s) l -> existsb (pair_eqb (t, s)) l = false.
+Proof.
+  intros H. destruct (existsb (pair_eqb (t, s)) l) eqn:E; [|reflexivity]. exfalso. apply H.
+  apply existsb_exists in E as ([t' s'] & Hin & Heq). unfold pair_eqb in Heq. cbn [fst snd] in Heq.
+  apply Bool.andb_true_iff in Heq as [E1 E2]. apply N.eqb_eq in E1, E2. now subst.
+Qed.
+
+Lemma OtWf_insert o sid now : OtWf o -> aget sid (ot_orphans o) = None ->
+  OtWf (ot_insert o sid now) /\ ot_by (ot_insert o sid now) = (now, sid) :: ot_by o.
+Proof.
+  intros Hw Hn. assert (Hnin : ~ In (now, sid) (ot_by o)) by (intros H; apply Hw in H; congruence).
+  unfold ot_insert. rewrite (existsb_pair_false _ _ _ Hnin). cbn [ot_by ot_orphans]. split; [|reflexivity].
+  unfold OtWf. cbn [ot_by ot_orphans]. intros t s [E|Hin].
+  - inv_some E. apply aget_aput_same.
+  - pose proof (Hw _ _ Hin) as G. assert (s <> sid) by congruence. now rewrite aget_aput_other.
+Qed.
+
+Lemma OtWf_remove o sid : OtWf o -> OtWf (ot_remove o sid).
+Proof.
+  intros Hw. unfold ot_remove. destruct (aget sid (ot_orphans o)) as [t0|] eqn:E; [|exact Hw].
+  intros t s Hin. cbn [ot_by ot_orphans] in *. apply filter_In in Hin as [Hin Hne].
+  pose proof (Hw _ _ Hin) as G. destruct (N.eq_dec s sid).
+  - subst. rewrite E in G. inv_some G. unfold pair_eqb in Hne. cbn [fst snd] in Hne. now rewrite !N.eqb_refl in Hne.
+  - now rewrite aget_arem_other.
+Qed.
+
+Lemma by_le_filter l1 l2 sid t1 t2 : Forall2 by_le l1 l2 ->
+  (forall t, In (t, sid) l1 -> t = t1) -> (forall t, In (t, sid) l2 -> t = t2) ->
+  Forall2 by_le (filter (fun e => negb (pair_eqb e (t1, sid))) l1)
+                (filter (fun e => negb (pair_eqb e (t2, sid))) l2).
+Proof.
+  induction 1 as [|[a1 s1] [a2 s2] r1 r2 [Hs Ht] _ IH]; intros H1 H2; cbn [filter]; [constructor|].
+  cbn [fst snd] in *. subst s2.
+  assert (IH' := IH (fun t Hin => H1 t (or_intror Hin)) (fun t Hin => H2 t (or_intror Hin))).
+  unfold pair_eqb. cbn [fst snd]. destruct (N.eqb_spec s1 sid).
+  - subst. rewrite (H1 a1 (or_introl eq_refl)), (H2 a2 (or_introl eq_refl)), !N.eqb_refl. exact IH'.
+  - rewrite !Bool.andb_false_r. cbn [negb]. constructor; [split; [reflexivity|assumption]|exact IH'].
+Qed.
+
+Lemma OtRel_remove o1 o2 sid : OtWf o1 -> OtWf o2 -> OtRel o1 o2 -> OtRel (ot_remove o1 sid) (ot_remove o2 sid).
+Proof.
+  intros W1 W2 [Ho Hb]. pose proof (orph_le_aget _ _ sid Ho) as G. unfold ot_remove.
+  destruct (aget sid (ot_orphans o1)) as [t1|] eqn:E1, (aget sid (ot_orphans o2)) as [t2|] eqn:E2; try contradiction.
+  - split; cbn [ot_orphans ot_by]; [now apply orph_le_arem|].
+    apply by_le_filter; [assumption| |].
+    + intros t Hin. apply W1 in Hin. congruence.
+    + intros t Hin. apply W2 in Hin. congruence.
+  - split; assumption.
+Qed.
+
+Lemma OtRel_insert o1 o2 sid n1 n2 : OtWf o1 -> OtWf o2 -> OtRel o1 o2 -> n2 <= n1 ->
+  aget sid (ot_orphans o1) = None -> aget sid (ot_orphans o2) = None ->
+  OtRel (ot_insert o1 sid n1) (ot_insert o2 sid n2).
+Proof.
+  intros W1 W2 [Ho Hb] Hn E1 E2.
+  destruct (OtWf_insert o1 sid n1 W1 E1) as [_ B1]. destruct (OtWf_insert o2 sid n2 W2 E2) as [_ B2].
+  split; [|rewrite B1, B2; constructor; [split; [reflexivity|assumption]|assumption]].
+  unfold ot_insert, aput. cbn [ot_orphans]. constructor; [split; [reflexivity|assumption]|now apply orph_le_arem].
+Qed.
+
+Record BInv (t1 t2 : thmap) (m : hmap) (st : list N) : Prop := {
+  b_r1 : TRel t1 m; b_r2 : TRel t2 m; b_k : KInv m st;
+  b_rel : OtRel (th_ot t1) (th_ot t2); b_w1 : OtWf (th_ot t1); b_w2 : OtWf (th_ot t2)
+}.
+
+Lemma BInv_new : BInv th_new th_new hm_new [].
+Proof.
+  constructor; try apply TRel_new; try apply KInv_new.
+  - split; constructor.
+  - intros t s [].
+  - intros t s [].
+Qed.
+
+Lemma ot_contains_none o sid : ot_contains o sid = false -> aget sid (ot_orphans o) = None.
+Proof. unfold ot_contains. destruct (aget sid (ot_orphans o)); [discriminate|reflexivity]. Qed.
+
+Lemma th_step_ot t o n : th_ot (fst (th_step t (TOp o n))) =
+  match o with
+  | OpOrphan rid => match mget rid (th_r2s t) with Some sid => ot_insert (th_ot t) sid n | None => th_ot t end
+  | OpLookup sid => if ot_contains (th_ot t) sid then ot_remove (th_ot t) sid else th_ot t
+  | _ => th_ot t
+  end.
+Proof.
+  destruct o as [rid tok|rid|sid|tok]; cbn [th_step].
+  - unfold th_allocate. destruct (sid_alloc (th_words t)) as [[sid ws']|]; [|reflexivity].
+    destruct (mget sid (th_handlers t)); reflexivity.
+  - unfold th_orphan. destruct (mget rid (th_r2s t)); reflexivity.
+  - unfold th_lookup. destruct (ot_contains (th_ot t) sid); [reflexivity|].
+    destruct (mget sid (th_handlers t)) as [[r k]|]; reflexivity.
+  - reflexivity.
+Qed.
+
+Lemma BInv_step t1 t2 m st o n1 n2 : BInv t1 t2 m st -> op_in_range o ->
+  (match o with OpOrphan _ => n2 <= n1 | _ => True end) ->
+  BInv (fst (th_step t1 (TOp o n1))) (fst (th_step t2 (TOp o n2))) (fst (hm_step m o))
+       (match ids_check_step st o (snd (hm_step m o)) with Some st' => st' | None => st end) /\
+  snd (th_step t1 (TOp o n1)) = snd (th_step t2 (TOp o n2)).
+Proof.
+  intros [R1 R2 K Rel W1 W2] Hr Hn.
+  destruct (th_step_refines t1 m o n1 R1) as [R1' E1]. destruct (th_step_refines t2 m o n2 R2) as [R2' E2].
+  destruct (KInv_step m st o K Hr) as (st' & Hs & K'). rewrite Hs.
+  split; [|congruence].
+  destruct R1 as (A1 & B1 & C1 & D1). destruct R2 as (A2 & B2 & C2 & D2).
+  assert (Hfresh : forall rid sid, mget rid (hm_r2s m) = Some sid ->
+            aget sid (ot_orphans (th_ot t1)) = None /\ aget sid (ot_orphans (th_ot t2)) = None).
+  { intros rid sid G. destruct (k_r _ _ K _ _ G) as [tk Hh].
+    assert (Hno : smem sid (hm_orphans m) = false).
+    { destruct (smem sid (hm_orphans m)) eqn:E; [|reflexivity]. destruct (k_o _ _ K _ E). congruence. }
+    split; apply ot_contains_none; [rewrite D1|rewrite D2]; exact Hno. }
+  constructor; try assumption; rewrite ?th_step_ot.
+  - destruct o as [rid tok|rid|sid|tok]; try assumption.
+    + rewrite C1, C2. destruct (mget rid (hm_r2s m)) as [sid|] eqn:G; [|assumption].
+      destruct (Hfresh _ _ G). now apply OtRel_insert.
+    + rewrite D1, D2. destruct (smem sid (hm_orphans m)); [now apply OtRel_remove|assumption].
+  - destruct o as [rid tok|rid|sid|tok]; try assumption.
+    + rewrite C1. destruct (mget rid (hm_r2s m)) as [sid|] eqn:G; [|assumption].
+      destruct (Hfresh _ _ G). now apply OtWf_insert.
+    + destruct (ot_contains (th_ot t1) sid); [now apply OtWf_remove|assumption].
+  - destruct o as [rid tok|rid|sid|tok]; try assumption.
+    + rewrite C2. destruct (mget rid (hm_r2s m)) as [sid|] eqn:G; [|assumption].
+      destruct (Hfresh _ _ G). now apply OtWf_insert.
+    + destruct (ot_contains (th_ot t2) sid); [now apply OtWf_remove|assumption].
+Qed.
+
+Lemma untimed_cons_op o n r : untimed (TOp o n :: r) = o :: untimed r.
+Proof. reflexivity. Qed.
+Lemma untimed_cons_count n r : untimed (TCount n :: r) = untimed r.
+Proof. reflexivity. Qed.
+
+Lemma bracket_run a : forall b t1 t2 m st, BInv t1 t2 m st -> same_ops a b -> stamps_le a b ->
+  Forall op_in_range (untimed a) ->
+  Forall2 res_le (snd (th_run t1 a)) (snd (th_run t2 b)).
+Proof.
+  induction a as [|x a IH]; intros [|y b] t1 t2 m st HB Hs Hl Hr; cbn [same_ops stamps_le] in *; try tauto.
+  - constructor.
+  - destruct x; tauto.
+  - destruct x as [o n1|n1], y as [o' n2|n2]; try tauto.
+    + destruct Hs as [<- Hs]. rewrite untimed_cons_op in Hr. inversion Hr as [|? ? Ho Hr']; subst.
+      assert (Hn : match o with OpOrphan _ => n2 <= n1 | _ => True end) by (destruct o; tauto).
+      assert (Hl' : stamps_le a b) by (destruct o; tauto).
+      destruct (BInv_step t1 t2 m st o n1 n2 HB Ho Hn) as [HB' He].
+      cbn [th_run]. destruct (th_step t1 (TOp o n1)) as [u1 x1]. destruct (th_step t2 (TOp o n2)) as [u2 x2].
+      cbn [fst snd] in *. subst x2.
+      specialize (IH b u1 u2 _ _ HB' Hs Hl' Hr').
+      destruct (th_run u1 a) as [v1 xs1]. destruct (th_run u2 b) as [v2 xs2]. cbn [snd] in *.
+      constructor; [|assumption].
+      destruct x1; cbn [res_le]; [reflexivity|lia].
+    + destruct Hl as [Hn Hl]. rewrite untimed_cons_count in Hr. cbn [th_run th_step].
+      specialize (IH b t1 t2 _ _ HB Hs Hl Hr).
+      destruct (th_run t1 a) as [v1 xs1]. destruct (th_run t2 b) as [v2 xs2]. cbn [snd] in *.
+      constructor; [|assumption]. cbn [res_le]. unfold th_old_orphans_count, ot_older_than.
+      destruct HB as [_ _ _ [_ Hb] _ _].
+      assert ((List.length (filter (is_old (n1 - old_age_ns)) (ot_by (th_ot t1))) <=
+               List.length (filter (is_old (n2 - old_age_ns)) (ot_by (th_ot t2))))%nat); [|lia].
+      apply older_than_mono_times; [lia|exact Hb].
+Qed.
+
+(* Bracket of old_orphans_count over a whole run: the same operations under two clock labellings,
+   the first with every orphaning read LATER and every count read EARLIER than the second: all
+   other results are equal and every count of the first is <= the count of the second.  The real
+   clock readings lie between the runner's stamps taken before and after each call, so the real
+   counts lie between the driver's two model runs. *)
+Theorem th_bracket a b : same_ops a b -> stamps_le a b -> Forall op_in_range (untimed a) ->
+  Forall2 res_le (snd (th_run th_new a)) (snd (th_run th_new b)).
+Proof. intros. eapply bracket_run; eauto using BInv_new. Qed.
+
+(* ================================================================ dispatch and tick *)
+Theorem dispatch_lookup raw sid : reader_dispatch raw = DLookup sid -> sid = raw /\ sid < nids.
+Proof.
+  unfold reader_dispatch. destruct (N.ltb_spec raw 32768).
+  - intros E. inv_some E. split; [reflexivity|exact H].
+  - destruct (raw =? 65535); discriminate.
+Qed.
+
+Theorem dispatch_negative raw : 32768 <= raw ->
+  reader_dispatch raw = (if raw =? 65535 then DEvent else DIgnore).
+Proof. intros H. unfold reader_dispatch. destruct (N.ltb_spec raw 32768); [lia|reflexivity]. Qed.
+
+Theorem tick_breaks_spec t now :
+  (orphaner_tick_breaks t now = true <-> old_count_threshold < th_old_orphans_count t now) /\
+  (orphaner_tick_breaks t now = true -> old_count_threshold < N.of_nat (List.length (ot_by (th_ot t)))) /\
+  fst (th_step t (TCount now)) = t.
+Proof.
+  unfold orphaner_tick_breaks. repeat split.
+  - apply N.ltb_lt.
+  - apply N.ltb_lt.
+  - intros H. apply N.ltb_lt in H. pose proof (older_than_le (th_ot t) now old_age_ns).
+    unfold th_old_orphans_count in H. lia.
+Qed.
+
+Theorem tick_mono t now now' : now <= now' ->
+  orphaner_tick_breaks t now = true -> orphaner_tick_breaks t now' = true.
+Proof.
+  unfold orphaner_tick_breaks, th_old_orphans_count. intros H E. apply N.ltb_lt in E. apply N.ltb_lt.
+  pose proof (older_than_mono_now (th_ot t) now now' old_age_ns H). lia.
 Qed.
